@@ -191,7 +191,7 @@ type armView struct {
 	ifi    *ssa.If
 	own    []*ssa.BasicBlock
 	blocks []*ssa.BasicBlock
-	bind   map[ssa.Value]ssa.Value      // parameter of a part -> the constant passed by this arm
+	bind   map[ssa.Value]ssa.Value     // parameter of a part -> the constant passed by this arm
 	via    map[*ssa.Function]*ssa.Call // part -> the call of this arm that enters it
 }
 
